@@ -113,7 +113,11 @@ def _mk_trailing(n, semi):
         cs = [c0, c1, c2, c3, c4]
         for c in cs[n:]:
             assume(c == 97)
-        tail = _sym_str(cs[:n], A2)
+        tail = ''
+        for c in cs[:n]:
+            assume(0 <= c < len(A2))
+            tail = tail + chr(A2[pc.pin(c, 0, len(A2) - 1)])       # pinned: CrossHair's regex model recurses without bound on (?:[)\\s]*(...)?)*
+        cs = [ord(ch) for ch in tail] + cs[n:]
         src = 'x\né = (ü' + tail            # the node ends after 'ü' on line 2: byte offset 8, character offset 6 (absolute character position 2 + 6 = 8)
         assume(0 <= k <= n)
         kk = pc.pin(k, 0, n)
@@ -131,17 +135,15 @@ def _mk_trailing(n, semi):
     return k2
 
 
-A3 = (40, 41, 44, 35, 97, 32)
+A3 = (40, 41, 44, 35, 97)
 
 
-def _mk_noclose(w):
-    def k3(a0: int, a1: int, a2: int, a3: int, b0: int, b1: int, b2: int, b3: int, c0: int, c1: int):
+def _mk_noclose(w, e0, e1):
+    def k3(a0: int, a1: int, a2: int, a3: int, b0: int, b1: int, b2: int, b3: int):
         la = _sym_str([a0, a1, a2, a3][:w], A3)
         for c in [a0, a1, a2, a3][w:] + [b0, b1, b2, b3][w:]:
             assume(c == 97)
         lb = _sym_str([b0, b1, b2, b3][:w], A3)
-        assume(0 <= c0 <= c1 <= w)
-        e0, e1 = pc.pin(c0, 0, w), pc.pin(c1, 0, w)
         lines = [la, lb]
         raised = False
         try:
@@ -258,12 +260,14 @@ CELLS.append(Cell('K1.syntax_error_in_loc', k1_syntax_error_in_loc, 'K', FNP[2:3
 for _n in (1, 2, 3, 4):
     for _semi in (False, True):
         CELLS.append(Cell(f'K2.has_trailing_{"semicolon" if _semi else "comma"}[len={_n}]', _mk_trailing(_n, _semi), 'K', FNP[3:5],
-                          f'2-line source with multi-byte characters before the position, followed by {_n} symbolic characters over {{, ; space ) # backslash newline a é}}; position after 0..{_n} of them',
+                          f'2-line source with multi-byte characters before the position, followed by {_n} characters over {{, ; space ) # backslash newline a é}} (finite choice, pinned: the pattern is outside CrossHair\'s regex model); position after 0..{_n} of them',
                           tier='quick' if _n <= 3 else 'thorough', budget=900, out='longer tails'))
-for _w in (2, 3, 4):
-    CELLS.append(Cell(f'K3.verify_no_close_delimiters[2x{_w}]', _mk_noclose(_w), 'K', FNP[5:],
-                      f'2 lines of {_w} symbolic characters over {{( ) , # a space}}; first element = any [c0, c1) on line 0',
-                      tier='quick' if _w <= 3 else 'thorough', budget=1200, out='elements spanning lines; other delimiters'))
+for _w in (2, 3):
+    for _e0 in range(_w + 1):
+        for _e1 in range(_e0, _w + 1):
+            CELLS.append(Cell(f'K3.verify_no_close_delimiters[2x{_w},elem={_e0}:{_e1}]', _mk_noclose(_w, _e0, _e1), 'K', FNP[5:],
+                              f'2 lines of {_w} symbolic characters over {{( ) , # a}}; first element = columns [{_e0}, {_e1}) of line 0',
+                              tier='quick' if _w == 2 else 'thorough', budget=900, out='elements spanning lines; other delimiters; longer lines'))
 CELLS.append(Cell('P1.parse_modes', p1_modes, 'P', ['fst.parsex.parse', 'fst.fst.FST.__new__'],
                   f'{len(FRAGS)} fragments x their parse modes vs the sub-tree of the embedding construct parsed by CPython (positions relative to the fragment), '
                   f'{len(ESCAPES)} wrapper-escape / invalid texts which must be rejected (finite tables, solver-enumerated)', budget=600, per_path=60,
